@@ -21,7 +21,7 @@ import z3
 from . import rx
 from .values import *  # noqa: F401,F403
 from .values import (BoundFn, BreakSignal, Closure, ContinueSignal, Dec, Infeasible, MergeAbort, Raised,
-                     ReturnSignal, SBool, SCycle, SDecStr, SFn, SInt, SObj, SStr, Special, SuperProxy,
+                     ReturnSignal, SBool, SCycle, SDecStr, SFn, SInt, SObj, SOpaqueStr, SStr, Special, SuperProxy,
                      Unsupported, concretize, deep_sym, is_strlike, is_sym, lift_bool, lift_int, lift_str,
                      payload, simp)
 
@@ -773,7 +773,7 @@ class Interp:
             if k is None:
                 raise Raised(AttributeError(f"{obj.cls.__name__}.{name}"))
             return v
-        if isinstance(obj, (SStr, SDecStr, SFn)):
+        if isinstance(obj, (SStr, SDecStr, SFn, SOpaqueStr)):
             return Special("strmethod", obj, name)
         if isinstance(obj, str):
             return Special("strmethod", obj, name)
